@@ -27,3 +27,24 @@ Definition spec_C10 (c : rcase) (obs : list robs) : bool :=
 Definition spec_C11 (c : rcase) (obs : list robs) : bool :=
   forallb (fun o => match o with (_, _, s) => match s with [] => true | _ => false end end) obs
   && spec_C10 c obs.
+
+(** C14 on nested calls: an operation in which no contract is violated (by the stack rule's own
+    account) ends exactly as the bare program would - same bodies entered, in the same order, same
+    result or the body's own exception. *)
+Definition is_body_event (e : event) : bool :=
+  match e with
+  | EvSite (SBody _) | EvSite (SMeth _ _) | EvSite (SInitBody _) => true
+  | _ => false
+  end.
+
+Definition spec_C14_op (P : program) (fuel : nat) (op : target * list (nat * Z)) (o : robs) : bool :=
+  match o, ref_exec P (plan_of (snd op)) fuel [] (fst op) with
+  | (t, out, _), (t', out') =>
+      match out' with
+      | OExn (EViol _) => true
+      | _ => trace_eqb (filter is_body_event t) (filter is_body_event t') && out_eqb out out'
+      end
+  end.
+
+Definition spec_C14_run (c : rcase) (obs : list robs) : bool :=
+  spec_ops (spec_C14_op (r_prog c) (r_fuel c)) (r_ops c) obs.
